@@ -19,7 +19,11 @@ RULE = ('W: depfile texts = (a) gcc_depfile-model output for 0..6 dependency nam
         'non-trivial = contains an escape, a wrap or an error branch; distinct by exact text.  R: real gcc/clang -MMD on '
         'generated header names; real make -pn on model-accepted depfiles; real make on generated rule graphs with stamp '
         'recipes (build; build; touch; build; delete leaf; build).  System: generated C projects configured by the real '
-        'bfg9000 (Make backend), built by real make with a logging compiler wrapper over random edit histories.')
+        'bfg9000 (Make backend), built by real make with a logging compiler wrapper (CC and CXX) over random edit histories; a '
+        'quarter of the projects mix C and C++ sources in one program (two compile rules), half use a precompiled header; the '
+        'first edits modify a header that only the object of a source in an oddly named directory (blank, #) includes and delete a '
+        'header that only the objects of ONE compile rule include (C / C++ / ordinary objects next to a pch), '
+        'the last edit of every history removes every #include of a project header and deletes all of them at once.')
 TRUSTED = ('R model gcc_depfile (Misc/Depfix.v) validated against gcc 12 and clang 14 on this run',
            'R model mk_read (Misc/Depfix.v) validated against GNU Make 4.3 --print-data-base on this run',
            'R model MakeSem.build validated against GNU Make 4.3 on generated rule graphs on this run',
@@ -502,35 +506,69 @@ RISKY = {'%': 'hdr-name-percent', '=': 'hdr-name-equals', '\t': 'hdr-name-tab',
          ':': 'hdr-name-colon', ';': 'hdr-name-semicolon', '|': 'hdr-name-bar'}
 
 
+ODD_DIRS = ['d r', 'a#b', 'sub/de ep']
+
+
 class Proj:
     """A generated C project: sources s<i>.c, headers with generated names, an include DAG.
     hdr[id] = {'name', 'v', 'inc': [ids]}   (a header includes only headers with a larger id -> acyclic)
     src[i]  = {'k', 'inc': [ids]}"""
 
-    def __init__(self, rng, rep, special=True, nsrc=None, nhdr=None, pch=False):
+    def __init__(self, rng, rep, special=True, nsrc=None, nhdr=None, pch=False, mixed=False):
         self.rng, self.rep = rng, rep
         self.special = special
+        self.mixed = mixed       # sources in C and in C++ (one program): two compile rules, two compilers
         self.hdr, self.src = {}, {}
         self.pch = None          # {'inc': [ids]}: a precompiled header pch.h, force-included into every source
+        self.only = {}           # 'c' / 'cxx' / 'ord' -> id of a header that (at first) only sources of that kind include
         self.next_h = 0
         self.next_s = 0
         self.files = {}          # relative path -> content, as last written
         for _ in range(nhdr if nhdr is not None else rng.randint(3, 8)):
             self.add_header()
-        for _ in range(nsrc if nsrc is not None else rng.randint(2, 5)):
+        for _ in range(nsrc if nsrc is not None else rng.randint(3 if mixed else 2, 5)):
             self.add_source()
+        if special:
+            # some source lives in a directory whose name needs escaping, and one header is known to its object alone (the
+            # object's depfile, read back through its -include line, is the only place that names it)
+            odd = [i for i in sorted(self.src) if self.src[i]['dir']]
+            if not odd:
+                odd = [max(self.src)]
+                self.src[odd[0]]['dir'] = rng.choice(ODD_DIRS)
+            self.only['dir'] = self.exclusive_header([rng.choice(odd)])
+        if mixed:
+            ss = sorted(self.src)
+            self.src[rng.choice(ss[1:])]['lang'] = 'cxx'        # both languages occur (the first source may be either)
+            if all(x['lang'] == 'cxx' for x in self.src.values()):
+                self.src[ss[0]]['lang'] = 'c'
+            # per language one header that only sources of that language include: whatever a compile rule has to do for
+            # the headers of its objects cannot be done for it by the rule of the other language
+            for lang in ('c', 'cxx'):
+                self.only[lang] = self.exclusive_header([i for i in ss if self.src[i]['lang'] == lang])
         if pch:
             # one header reachable ONLY through the precompiled header, plus possibly shared ones
             only = self.add_header()
             for o in list(self.hdr.values()) + list(self.src.values()):
                 o['inc'] = [c for c in o['inc'] if c != only]
             self.pch = {'inc': [only] + rng.sample([h for h in self.hdr if h != only], rng.randint(0, 1))}
+            # and one that only an ordinary source includes (not the precompiled header)
+            self.only['ord'] = self.exclusive_header([rng.choice(sorted(self.src))])
+
+    def exclusive_header(self, srcs):
+        """a new header that includes nothing and is included by exactly the given sources"""
+        h = self.add_header()
+        for o in self.includers():
+            o['inc'] = [c for c in o['inc'] if c != h]
+        self.hdr[h]['inc'] = []
+        for i in srcs:
+            self.src[i]['inc'].append(h)
+        return h
 
     def sname(self, i):
         """relative path of source i: some sources live in a sub-directory whose name needs escaping in the Makefile (the
         object, its depfile and the -include line of the depfile inherit it)"""
         d = self.src[i].get('dir', '')
-        return (d + '/' if d else '') + 's%d.c' % i
+        return (d + '/' if d else '') + 's%d.%s' % (i, 'cpp' if self.src[i].get('lang') == 'cxx' else 'c')
 
     def includers(self):
         return list(self.hdr.values()) + list(self.src.values()) + ([self.pch] if self.pch else [])
@@ -569,7 +607,8 @@ class Proj:
         self.next_s += 1
         hs = list(self.hdr)
         self.src[i] = {'k': self.rng.randint(1, 9), 'inc': self.rng.sample(hs, self.rng.randint(0, min(3, len(hs)))),
-                       'dir': self.rng.choice(['', '', 'd r', 'a#b', 'sub/de ep']) if self.special else ''}
+                       'dir': self.rng.choice(['', ''] + ODD_DIRS) if self.special else '',
+                       'lang': self.rng.choice(['c', 'cxx']) if self.mixed else 'c'}
         return i
 
     # -- semantics (the include-scanner oracle)
@@ -607,9 +646,10 @@ class Proj:
         for i, s in self.src.items():
             up = '../' * len([x for x in s.get('dir', '').split('/') if x])
             t = ''.join('#include "%s%s"\n' % (up, self.hdr[c]['name']) for c in s['inc'])
-            t += 'int f%d(void) { return %d%s; }\n' % (i, s['k'], ''.join(' + V%d' % c for c in s['inc']))
+            cl = '#ifdef __cplusplus\nextern "C"\n#endif\n' if self.mixed else ''
+            t += cl + 'int f%d(void) { return %d%s; }\n' % (i, s['k'], ''.join(' + V%d' % c for c in s['inc']))
             if i == first:
-                t += '#include <stdio.h>\n' + ''.join('int f%d(void);\n' % j for j in self.src if j != i)
+                t += '#include <stdio.h>\n' + ''.join(cl + 'int f%d(void);\n' % j for j in self.src if j != i)
                 t += 'int main(void) { printf("%%d\\n", 0%s%s); return 0; }\n' % (
                     ''.join(' + f%d()' % j for j in self.src), ' + VPCH' if self.pch else '')
             out[self.sname(i)] = t
@@ -623,6 +663,21 @@ class Proj:
         return out
 
     # -- edits; each returns a description
+    def delete_header(self, h):
+        nm = self.hdr[h]['name']
+        del self.hdr[h]
+        for o in self.includers():
+            o['inc'] = [c for c in o['inc'] if c != h]
+        return ['del_hdr', nm]
+
+    def strip_headers(self):
+        """every #include of a project header is removed and every project header deleted, in one edit (the precompiled
+        header itself stays, empty)"""
+        n = len(self.hdr)
+        for h in list(self.hdr):
+            self.delete_header(h)
+        return ['strip_hdrs', n]
+
     def edit(self):
         rng = self.rng
         kinds = ['mod_hdr', 'mod_hdr', 'mod_src', 'touch_hdr', 'add_hdr', 'del_hdr', 'ren_hdr', 'add_inc', 'del_inc',
@@ -752,6 +807,14 @@ class SysRun:
         os.chmod(self.wrapper, 0o755)
         self.env = common.impl_env()
         self.env['CC'] = self.wrapper
+        # the C++ driver of the same family, logged into the same file
+        cxx = shutil.which({'gcc': 'g++', 'clang': 'clang++'}.get(cc, 'c++'))
+        if cxx:
+            self.wrapper_cxx = os.path.join(root, 'cxxwrap')
+            with open(self.wrapper_cxx, 'w') as f:
+                f.write(WRAPPER % {'log': self.log, 'cc': cxx})
+            os.chmod(self.wrapper_cxx, 0o755)
+            self.env['CXX'] = self.wrapper_cxx
         self.clock = Clock(root)
         self.written = {}
 
@@ -841,14 +904,23 @@ def run_history(rep, seed, idx, cc, nedits, risky=None):
     try:
         run_ = SysRun(root, cc)
         if risky is None:
-            proj = Proj(rng, rep, pch=(idx % 4 in (1, 2)))      # half of the histories use a precompiled header (both compilers)
+            # half of the histories use a precompiled header (both compilers), a quarter mixes C and C++ sources
+            proj = Proj(rng, rep, pch=(idx % 4 in (1, 2)), mixed=(idx % 4 == 0))
             if proj.pch:
                 rep.count('sys:history with precompiled header')
+            if proj.mixed:
+                rep.count('sys:history with C and C++ sources')
         else:
-            proj = Proj(rng, None, special=False, nsrc=2, nhdr=2)
+            # the forced-character scenarios alternate between a C-only and a mixed project
+            proj = Proj(rng, None, special=False, nsrc=2, nhdr=2, mixed=(ord(risky) % 2 == 1))
             h = proj.add_header(force=risky)
             proj.src[min(proj.src)]['inc'].append(h)
         risky_name = proj.hdr[h]['name'] if risky is not None else None
+        # scheduled first edits: a header that only the sources of ONE compile rule include (C / C++ / ordinary objects
+        # next to a precompiled header) stops being included and is deleted
+        # ... and before that, a header that only the object of a source in an oddly named directory includes is modified
+        scheduled = [(k, proj.only[k]) for k in ('dir', 'cxx', 'c', 'ord') if k in proj.only] if risky is None else []
+        allnames = set(h['name'] for h in proj.hdr.values())
         run_.sync(proj)
         p = run_.configure()
         if p.returncode != 0:
@@ -895,6 +967,15 @@ def run_history(rep, seed, idx, cc, nedits, risky=None):
                 h0 = proj.pch['inc'][0]
                 proj.hdr[h0]['v'] += rng.randint(1, 5)
                 ed = ['mod_hdr', proj.hdr[h0]['name']]
+            elif risky is None and scheduled:
+                k0, h0 = scheduled.pop(0)
+                if h0 not in proj.hdr:
+                    ed = proj.edit()
+                elif k0 == 'dir':
+                    proj.hdr[h0]['v'] += rng.randint(1, 5)
+                    ed = ['mod_hdr', proj.hdr[h0]['name']]
+                else:
+                    ed = proj.delete_header(h0)
             elif risky is None:
                 ed = proj.edit()
             else:               # fixed scenario: touch the risky header, then stop including it and delete it
@@ -914,6 +995,13 @@ def run_history(rep, seed, idx, cc, nedits, risky=None):
             dirty = run_.sync(proj, extra_touch=[ed[1]] if ed[0] == 'touch_hdr' else ())
             if not check_build('edit %d %r' % (e, ed), dirty):
                 break
+        if not fails and proj.hdr:
+            # last edit of every history: no source includes a project header any more and all of them are deleted; every
+            # object whose depfile names one is made again, by whichever compile rule made it
+            ed = proj.strip_headers()
+            trace.append(ed)
+            rep.count('sys:edit:' + ed[0])
+            check_build('last edit %r' % (ed,), run_.sync(proj))
         if not fails:
             # clean removes every product (objects, depfiles, program); the next build recreates all of them
             p, _, _ = run_.make('clean')
